@@ -2,6 +2,7 @@
 import ast
 
 from engine.arrays import Arr, Kw, Lst, Scal, F_
+from engine.index import own_nodes
 from engine.report import AnalysisError
 
 from . import arrayrules as R
@@ -119,47 +120,59 @@ def delegation(ctx, idx, d, r, base_name):
 
 
 def sorted_pairs(ctx, idx, d, r):
+    """One sorted(zip(raw, normal)) exists; after it the control points are read only through the sorted sequence."""
     con = "%s.execute::control-points-sorted-as-pairs" % d.key
     fi = d.execute
     ok = False
     why = "the control points are never sorted"
+    sorted_node = None
+    list_names = []
     for node, arg, fk in r.sorteds:
         if fk != fi.key:
             continue
         if isinstance(arg, Lst) and arg.what == "zip" and len(arg.zipped) == 2:
-            srcs = [getattr(z, "srcs", ()) for z in arg.zipped]
             second = arg.zipped[1]
             first = arg.zipped[0]
             if isinstance(second, Lst) and "NormalValues" in second.srcs and isinstance(first, Lst) and first.what == "nums":
                 ok = True
+                sorted_node = node
                 why = "sorted(zip(raw, normal)): points sorted together by raw value"
+                z = node.args[0] if node.args else None
+                if isinstance(z, ast.Call):
+                    list_names = [a.id for a in z.args if isinstance(a, ast.Name)]
             else:
                 why = "sorted(zip(...)) does not pair the raw values with NormalValues (raw first): %s" % K.src(node)
         elif isinstance(arg, Lst):
             why = "`%s` sorts one list on its own: raw and normal values are no longer paired" % K.src(node)
-    # the sorted sequence must be what drives the loop and the extrapolations
     if ok:
+        # the sorted value must be kept, never rebound, and the unsorted lists must not be read again except for len()/set() checks
         name = None
-        for n in ast.walk(fi.node):
-            if isinstance(n, ast.Assign) and isinstance(n.value, ast.Call) and any(n.value is x[0] for x in r.sorteds) and isinstance(n.targets[0], ast.Name):
+        for n in own_nodes(fi.node):
+            if isinstance(n, ast.Assign) and n.value is sorted_node and isinstance(n.targets[0], ast.Name):
                 name = n.targets[0].id
         if name is None:
             ok = False
-            why = "the sorted pairs are not kept in a variable that drives the segment loop"
+            why = "the sorted pairs are not kept in a variable"
         else:
-            loops = [n for n in ast.walk(fi.node) if isinstance(n, ast.For)]
-            drives = any(name in K.names_in(lp.iter) for lp in loops)
-            ends = [n for n in ast.walk(fi.node) if isinstance(n, ast.Subscript) and isinstance(n.value, ast.Subscript) and isinstance(n.value.value, ast.Name) and n.value.value.id == name]
-            if not drives:
-                ok = False
-                why = "the segment loop does not iterate over the sorted pairs `%s`" % name
-            elif len(ends) < 4:
-                ok = False
-                why = "the flat extrapolations do not read the first and last sorted pair"
-            rebinds = [n for n in ast.walk(fi.node) if isinstance(n, ast.Assign) and any(isinstance(t, ast.Name) and t.id == name for t in n.targets)]
+            rebinds = [n for n in own_nodes(fi.node) if isinstance(n, ast.Assign) and any(isinstance(t, ast.Name) and t.id == name for t in n.targets)]
             if len(rebinds) > 1:
                 ok = False
                 why = "`%s` is reassigned after sorting" % name
+            uses = [n for n in own_nodes(fi.node) if isinstance(n, ast.Name) and n.id == name and isinstance(n.ctx, ast.Load)]
+            if ok and not uses:
+                ok = False
+                why = "the sorted pairs `%s` are never used" % name
+            parents = {}
+            for n in own_nodes(fi.node):
+                for c in ast.iter_child_nodes(n):
+                    parents[id(c)] = n
+            for n in own_nodes(fi.node):
+                if ok and isinstance(n, ast.Name) and n.id in list_names and isinstance(n.ctx, ast.Load) and getattr(n, "lineno", 0) > sorted_node.lineno:
+                    par = parents.get(id(n))
+                    benign = isinstance(par, ast.Call) and isinstance(par.func, ast.Name) and par.func.id in ("len", "set") and n in par.args
+                    if not benign:
+                        ok = False
+                        why = "after sorting, the unsorted list `%s` is still read (`%s`): the curve is driven by unsorted control points" % (n.id, K.src(par)[:60])
     ctx.ob("C08.b", con, d.module.rel, fi.node.lineno, ok, why)
 
 
